@@ -174,8 +174,67 @@ def gridVerdictAny : P String := do
   | "err!" :: c => pure ("fail internal " ++ " ".intercalate c)
   | _ => throw "answer?"
 
+def hErrOf (c : String) : HErr :=
+  if c == "NoSuchAncestor" then .NoSuchAncestor else if c == "NullSequence" then .NullSequence else .otherDocumented
+
+def refusedWhy (hd : HD) (a : List String) : String :=
+  match hierExpect hd with
+  | .accept => "refused-valid-parent-hierarchy " ++ " ".intercalate (a.drop 1)
+  | _ => "refused-with-another-class " ++ " ".intercalate (a.drop 1)
+
+/-- `hier` / `hierx <Class> <kind> => answer`: the expected verdict is `hierExpect` of the kind's plain descriptor -/
+def hierOp (exportOnly : Bool) : Op := do
+  let _ ← tok
+  let k ← pNat; pArrow
+  let a ← pRest
+  match hierKinds[k]? with
+  | none => throw "kind?"
+  | some hd =>
+      let o : Option HOut := match a with
+        | ["ok", "wf"] => some .okWf
+        | "ok" :: "illformed" :: _ => some .illformed
+        | ["err", c] => some (if documented.contains c then .refused (hErrOf c) else .internal)
+        | "err!" :: _ => some .internal
+        | _ => none
+      match o with
+      | none => throw "answer?"
+      | some (.refused _) => if exportOnly then pure "n/a" else pure (verdict (okHier hd (o.getD .internal)) (refusedWhy hd a))
+      | some .internal => if exportOnly then pure "n/a" else pure ("fail internal " ++ " ".intercalate (a.drop 1))
+      | some o =>
+          if exportOnly then pure (verdict (o == .okWf) ("illformed " ++ " ".intercalate (a.drop 2))) else
+          pure (verdict (okHier hd o)
+            (match o with
+             | .okWf => "illformed accepted-invalid-parent-hierarchy"
+             | .illformed => "illformed " ++ " ".intercalate (a.drop 2)
+             | .refused _ => refusedWhy hd a
+             | .internal => "internal " ++ " ".intercalate (a.drop 1)))
+
+def resOf (t : String) : Res :=
+  ⟨t.contains 'P', t.contains 'S', t.contains 'D', t.contains 'C', t.contains 'I', t.contains 'N'⟩
+
+/-- `bcall <Class> <base> <member> <argid> <res> => answer`: a member of a VALID boundary object.  Never an internal
+    error, nothing ill-formed; a member without arguments may refuse only what the object lacks. -/
+def bcallOp : Op := do
+  let _ ← tok; let _ ← tok; let _ ← tok
+  let argid ← tok
+  let res ← tok; pArrow
+  let a ← pRest
+  let zeroArg := argid == "prop" || argid == "-"
+  match a with
+  | ["ok", "wf"] => pure "pass"
+  | "ok" :: "illformed" :: why => pure ("fail illformed " ++ " ".intercalate why)
+  | ["err", c] =>
+      pure (if !documented.contains c then s!"fail undocumented {c}"
+            else if zeroArg && !zeroArgRefusalAllowed (resOf res) c then s!"fail refused-valid-object {c}" else "pass")
+  | "err!" :: c => pure ("fail internal " ++ " ".intercalate c)
+  | _ => throw "answer?"
+
 def ops : List (String × Op) := [
   ("gbparse", gridVerdictAny),
+  ("hier", hierOp false),
+  ("hierx", hierOp false),
+  ("hiers", hierOp true),
+  ("bcall", bcallOp),
   ("ctor", gridVerdict true),
   ("call", gridVerdict false),
   ("mkvar", do
